@@ -728,6 +728,34 @@ def module_funcs(line):
     return []
 
 
+def decls_closed_text(txt):
+    """every name a MIR text exports or declares forward is defined in the same module (a shrunk module text must not
+    become `export g` + `forward g` without g: MIR_link does not diagnose that ill-formed module, it never returns)"""
+    for mod in re.split(r'^\s*endmodule\b', txt, flags=re.M):
+        want = set()
+        for m in re.finditer(r'^\s+(?:export|forward)\s+([^#\n]*)', mod, re.M):
+            want |= {x.strip() for x in m.group(1).split(',') if x.strip()}
+        defined = {m.group(1) for m in re.finditer(r'^(\w+):\s*(\w+)', mod, re.M)
+                   if m.group(2) not in ('module', 'proto', 'import', 'export', 'forward')}
+        if want - defined:
+            return False
+    return True
+
+
+def decls_closed_api(lst):
+    """the same for the declaration list of an `apim` command"""
+    want, defined = set(), set()
+    for e in lst.split(','):
+        w = e.split(':')
+        if len(w) < 2:
+            continue
+        if w[0] in ('X', 'W'):
+            want.add(w[1])
+        elif w[0] in ('D', 'B', 'S', 'R', 'F'):
+            defined.add(w[1])
+    return not (want - defined)
+
+
 def valid(lines):
     """is the script a legal, error-free-by-construction API history?  (used when shrinking a failing
     script: a shrunk script must still be a history the property quantifies over)"""
@@ -804,11 +832,13 @@ def valid(lines):
                 txt = binascii.unhexlify(a1).decode()
             except Exception:
                 return False
+            if not decls_closed_text(txt):
+                return False
             s['mods'].append(re.findall(r'^(\w+):\s+func', txt, re.M))
         elif cmd == 'api':
             s['mods'].append(['apif' + a1])
         elif cmd == 'apim':
-            if a1 is None or a2 is None:
+            if a1 is None or a2 is None or not decls_closed_api(a2):
                 return False
             s['mods'].append(['f' + a1] + re.findall(r'\bF:(g\w+):', a2))
         elif cmd in ('write', 'fwrite'):
